@@ -143,7 +143,8 @@ def symmetric(repo: Repo, chk: Check) -> None:
             for pred in ("dispatch_to_dm", "dispatch_to_compute"):
                 if t.count(pred) == 2 and pred not in blocks and "isinstance" not in t:
                     blocks[pred] = n
-    if set(blocks) != {"dispatch_to_dm", "dispatch_to_compute"}:
+    direct_appends = all(any(isinstance(st, ast.Expr) and callee_name(st.value) == "append" for st in b_.body) for b_ in blocks.values())
+    if set(blocks) != {"dispatch_to_dm", "dispatch_to_compute"} or not direct_appends:
         # the two directions are not two `if` statements (a loop over the two rules, a helper, ..): decide the same clauses on the
         # facts that dominate the appends to the pending list
         if not _symmetric_by_flow(repo, chk, f, fl):
@@ -192,33 +193,62 @@ def symmetric(repo: Repo, chk: Check) -> None:
 
 def _symmetric_by_flow(repo: Repo, chk: Check, f: Func, fl: Flow) -> bool:
     """C13.symmetric / C13.every-pair decided from must-facts (used when the two directions are not two syntactic blocks)"""
-    apps = [s for s in fl.calls("append") if s.reachable and any(isinstance(l, ast.For) and norm.match(T("$v.uses"), l.iter) is not None for l in s.loops)]
-    if not apps:
+    from sa.flow import expand as _expand, outcome_summary
+
+    in_uses_loop = lambda s_: any(isinstance(l, ast.For) and norm.match(T("$v.uses"), l.iter) is not None for l in s_.loops)  # noqa: E731
+    # additions to the pending collection: list append / extend, set add, dict setdefault (the key is what becomes pending)
+    sites = [s_ for s_ in fl.calls("append", "extend", "add", "setdefault") if s_.reachable and in_uses_loop(s_) and s_.node.args]
+    if not sites:
         return False
+
+    def elements(e: ast.expr) -> list[ast.expr] | None:
+        """the elements a list expression is known to hold: a display, a display grown by appends (a helper's local list)"""
+        e = norm.primary(e)
+        if isinstance(e, (ast.List, ast.Tuple)) and not any(isinstance(x, ast.Starred) for x in e.elts):
+            return list(e.elts)
+        if isinstance(e, ast.Call) and isinstance(e.func, ast.Name) and e.func.id == "__mut_append__" and len(e.args) == 2:
+            base_ = elements(e.args[0])
+            return None if base_ is None else [*base_, e.args[1]]
+        return None
+
+    # (site, facts of one path alternative, element added on that alternative)
+    adds: list[tuple[Site, list, str]] = []
+    for s_ in sites:
+        for alt in s_.state.alts:
+            facts_ = [fa for fa in alt.facts.values() if fa.kind == "atom"] + [fa for fa in s_.extra if fa.kind == "atom"]
+            arg = _expand(s_.node.args[0], {k: v for k, v in alt.env.items() if k not in s_.shadow})
+            if callee_name(s_.node) != "extend":
+                adds.append((s_, facts_, ast.unparse(norm.primary(arg))))
+            else:
+                els = elements(arg)
+                if els is None:
+                    return False
+                for el in els:
+                    adds.append((s_, facts_, ast.unparse(norm.primary(el))))
     results: dict[str, dict[str, object]] = {}
     for pred in ("dispatch_to_dm", "dispatch_to_compute"):
         cons = None
         back = None
-        for s in apps:
+        for s, facts_, elem in adds:
             use_loop = [l for l in s.loops if isinstance(l, ast.For) and norm.match(T("$v.uses"), l.iter) is not None][-1]
             uv = use_loop.target.id if isinstance(use_loop.target, ast.Name) else None
             if uv is None:
                 return False
             # what is known at the request but not at the head of the loop over the uses: the conditions on this very pair
             head = next((x for x in fl.stmts(ast.For) if x.node is use_loop or (getattr(x.node, "lineno", None) == use_loop.lineno and ast.dump(x.node.target) == ast.dump(use_loop.target))), None)
-            base = set(head.fact_texts) if head is not None else set()
-            pair = [fa for fa in s.facts if fa.kind == "atom" and fa.text not in base]
+            # (facts that some path to the loop head already carries were not established for this pair)
+            base = {t_ for a_ in head.state.alts for t_ in a_.facts} if head is not None else set()
+            pair = [fa for fa in facts_ if fa.text not in base]
             pos = [fa for fa in pair if norm.match(T(f"{pred}($p, $c)"), fa.expr) is not None]
             neg = [fa for fa in pair if norm.match(T(f"not {pred}($u, $c)"), fa.expr) is not None]
             if not pos or not neg:
                 continue
             prod = ast.unparse(norm.match(T(f"{pred}($p, $c)"), pos[0].expr)["p"])  # type: ignore[index]
             use = ast.unparse(norm.match(T(f"not {pred}($u, $c)"), neg[0].expr)["u"])  # type: ignore[index]
-            arg = ast.unparse(s.expand(s.node.args[0]))
+            arg = elem
             # facts that only restate what the predicate's outcome implies (derived from its summary) are not conditions of their own
             derived = set()
             try:
-                from sa.flow import expand as _expand, outcome_summary
                 pf = repo.func(RULES, pred)
                 summ = outcome_summary(pf, repo, 0)
                 for outcome, who in (("false", norm.match(T(f"not {pred}($u, $c)"), neg[0].expr)), ("true", norm.match(T(f"{pred}($p, $c)"), pos[0].expr))):
@@ -231,15 +261,24 @@ def _symmetric_by_flow(repo: Repo, chk: Check, f: Func, fl: Flow) -> bool:
                 derived = set()
             others = [fa for fa in pair if fa not in neg and fa not in pos and fa.text not in derived]
             if arg == use:
-                cons = {"site": s, "prod": prod, "use": use, "extra": [fa.text for fa in others]}
-            elif "last_op" in arg or any("last_op" in ast.unparse(x) for x in [fl.cone(s.node.args[0], s, inline=0)]):
+                # conditions that hold on EVERY path alternative adding the consumer (what differs between alternatives - whether the
+                # back-edge clause applied, whether the other direction fired before - is not a condition of the request)
+                ex_ = {fa.text for fa in others}
+                if cons is None:
+                    cons = {"site": s, "prod": prod, "use": use, "extra": sorted(ex_)}
+                else:
+                    cons["extra"] = sorted(set(cons["extra"]) & ex_)  # type: ignore[arg-type]
+            elif "last_op" in arg:
                 same_parent = [fa for fa in others if norm.any_match(["$a.parent_op() == $b.parent_op()", "$a.parent_op() is $b.parent_op()"], fa.expr) is not None]
-                is_for = [fa for fa in s.facts if fa.kind == "atom" and norm.any_match(["isinstance($a.parent_op(), scf.ForOp)", "isinstance($a.parent_op(), ForOp)"], fa.expr) is not None]
+                is_for = [fa for fa in facts_ if norm.any_match(["isinstance($a.parent_op(), scf.ForOp)", "isinstance($a.parent_op(), ForOp)"], fa.expr) is not None]
                 # the yield itself being there (an assert / None test on the loop's last op) is not a condition on the pair
                 about_yield = [fa for fa in others if "last_op" in fa.text and norm.any_match(
                     ["isinstance($y, scf.YieldOp)", "isinstance($y, YieldOp)", "$y is not None"], fa.expr) is not None]
-                extra = [fa.text for fa in others if fa not in same_parent and fa not in is_for and fa not in about_yield]
-                back = {"site": s, "ok": bool(same_parent) and bool(is_for), "extra": extra}
+                extra = {fa.text for fa in others if fa not in same_parent and fa not in is_for and fa not in about_yield}
+                if back is None:
+                    back = {"site": s, "ok": bool(same_parent) and bool(is_for), "extra": sorted(extra)}
+                else:
+                    back = {"site": s, "ok": bool(back["ok"]) and bool(same_parent) and bool(is_for), "extra": sorted(set(back["extra"]) & extra)}  # type: ignore[arg-type]
         results[pred] = {"cons": cons, "back": back}
     if any(results[p_]["cons"] is None for p_ in results):
         return False
@@ -300,7 +339,7 @@ def dealloc_clause(repo: Repo, chk: Check) -> None:
         floor=1,
     )
     f, fl = flow_of(repo, chk, BARRIER, "InsertSyncBarrier.apply")
-    apps = [s for s in fl.calls("append") if s.reachable and has_fact(s, ["isinstance($u.operation, DeallocOp)", "isinstance($u.operation, memref.DeallocOp)",
+    apps = [s for s in fl.calls("append", "add", "setdefault") if s.reachable and has_fact(s, ["isinstance($u.operation, DeallocOp)", "isinstance($u.operation, memref.DeallocOp)",
                                                                         "isinstance($u, DeallocOp)"])]
     if not apps:
         chk.bad("C13.dealloc", f"{f.key}:dealloc", f.where, "no path makes a dealloc user pending: the buffer can be freed by one core while the other still accesses it")
